@@ -198,6 +198,12 @@ JudgeOk(r) ==
      ELSE \E din \in {DirList(rin)} : \E dout \in {DirList(rout)} :
           IF din = dout
           THEN Verdict(r.rid, "C07", IF \E k \in 1..Len(din) : din[k][2] # <<>> THEN "ok" ELSE "ok0", Len(din))
+          \* the listed deviation D7b leaves a sum operand in place and hoists LATER operands in front of it: functions
+          \* inside those operands change places in the text, each with its own prologue.  Only there, the comparison
+          \* is by function (same prologues, same number of times) instead of by position
+          ELSE IF /\ dcfg.plus = "" /\ D7bWhy \in whys0 /\ Len(din) = Len(dout) /\ din[1] = dout[1]
+                  /\ \A k \in 1..Len(din) : Cardinality({j \in 1..Len(din) : din[j] = din[k]}) = Cardinality({j \in 1..Len(dout) : dout[j] = din[k]})
+          THEN Verdict(r.rid, "C07", "ok", <<"same prologues, functions moved with their operands (D7b)", Len(din)>>)
           ELSE Verdict(r.rid, "C07", "reject", <<"directive prologues differ", din, dout>>)
   /\ J08(r, modified, {})
   \* ---- C12 : status agrees with content
